@@ -44,7 +44,11 @@ pub fn gen_sql_case(prop: &str, verif_seed: u64, idx: u64) -> SqlReplay {
     let profile: Profile = props::profile_for(prop, &mut rng);
     let guards = profile.guards.clone();
     let events = Gen::new(rng.next(), profile).generate(pick_cfg);
-    SqlReplay { property: prop.into(), engine: "E1-sqlsim".into(), seed, cfg, allow_oom: false, guards, events, violation: None, trace: vec![] }
+    let engine = match props::prop(prop).map(|p| p.engine) {
+        Some(props::Engine::Crash) => "E2-crashsim",
+        _ => "E1-sqlsim",
+    };
+    SqlReplay { property: prop.into(), engine: engine.into(), seed, cfg, allow_oom: false, guards, events, violation: None, trace: vec![] }
 }
 
 pub fn run_sql_case(case: &SqlReplay, idx: u64) -> RunResult {
